@@ -1,16 +1,30 @@
-// C06: nested waits never deadlock through pool starvation.  Random acyclic programs whose tasks block
-// only in dispenso waits (task-set wait from a task body on a set created by the body or on an earlier,
-// fully scheduled ConcurrentTaskSet; waiting parallel_for inside tasks), on pools of 0..3 threads, under
-// the deterministic scheduler.  Acyclicity is by construction: sets are numbered, and a task of set j only
-// waits on sets it created itself or on shared sets with a smaller number whose scheduling has finished.
+// C06: nested waits never deadlock through pool starvation.
+// Random acyclic task programs whose tasks block only in dispenso waits, run on the REAL ThreadPool /
+// TaskSet / ConcurrentTaskSet / Future / parallel_for under the deterministic scheduler, pools of 0..4
+// threads.  A program is generated up front as explicit data (tasks with scripts: schedule a child into
+// a set, bulk-schedule children, wait on a set (wait() or a tryWait loop), waiting parallel_for, launch a
+// future and wait on it, wait on an earlier shared set) and then interpreted.
+//   fork-join programs (foreign_waits=0): every wait is on a set / future the waiting task created and
+//     scheduled into itself.  They must always terminate: a stuck run is a violation.
+//   programs with foreign waits (foreign_waits=1, one third of the scenarios): tasks of shared set j may
+//     also wait on an earlier shared ConcurrentTaskSet that main scheduled and sealed.  Still acyclic,
+//     but the helping wait can bury or starve the awaited task: known finding.
+// Tie: every scheduling event (schedule call brackets, pool push / take / inline hooks, body begin / end,
+// wait brackets, atomic operations on the worker sleep mask, i.e. claims of parked workers) is logged and
+// replayed through the Lean model (plug-in `nested`): a take from a tier the model says that role does
+// not poll, a steal-ring push without a claimed idle worker, a wait returning while a member is
+// unfinished, … is a correspondence failure.
 // Oracle: the program terminates (dsched reports deadlock / livelock otherwise) and every body ran once.
 // usage: c06_nested <seed> <scenarios> [start]
 #include <atomic>
 #include <chrono>
+#include <map>
+#include <memory>
 #include <thread>
 #include <vector>
 #define private public
 #define protected public
+#include <dispenso/future.h>
 #include <dispenso/parallel_for.h>
 #include <dispenso/task_set.h>
 #include <dispenso/thread_pool.h>
@@ -18,70 +32,333 @@
 #undef protected
 #include "dsched/dsh.h"
 
-// record the scheduling events (pushes, takes) so that a stuck run shows where the unfinished task sits
-extern "C" void dispenso_verif_hook(const char* what, const void*, long a, long b) {
-  if (dsched::tid() < 0) return;
-  if (std::strncmp(what, "pool.push", 9) == 0 || std::strncmp(what, "pool.take", 9) == 0) {
-    dsched::noPreempt(true);
-    dsched::note("h %s %ld %ld", what, a, b);
-    dsched::noPreempt(false);
-  }
-}
-
 namespace {
 
-struct Prog {
-  dispenso::ThreadPool* pool;
-  std::vector<dispenso::ConcurrentTaskSet*> shared;  // numbered, scheduled to only by main, in order
-  std::vector<int> sealed;                            // main has finished scheduling to shared[i]
-  int bodies = 0;
-  bool foreign = false;   // tasks may wait on earlier shared sets (scheduled by main), not only on sets they created
+enum { K_SPAWN, K_BULK, K_WAIT, K_PFOR, K_FUT, K_FWAIT, K_FOREIGN, K_SEAL };
+enum { S_TS, S_CTS_LIGHT, S_CTS_HEAVY, S_FUT, S_PFOR };
+
+struct PAct {
+  int k = 0;
+  int set = -1;
+  std::vector<int> kids;
+  int n = 0;      // pfor range / wait mode (0 wait(), >0 tryWait(n) loop)
+  int mode = 0;   // spawn: 0 plain, 1 ForceQueuingTag, 2 skipRecheck (CTS)
 };
-Prog* g = nullptr;
+struct PSet { int kind; int mult; };
+struct PTask { std::vector<PAct> script; int level = -1; };
+
+struct Program {
+  std::vector<PTask> tasks;
+  std::vector<PSet> sets;
+  std::vector<int> shared;   // set ids of the root's shared sets, in order
+  bool foreign = false;
+  int heavy = 0, bulk = 0, fut = 0, pfor = 0, foreignWaits = 0, inl = 0;
+};
+
+struct Gen {
+  Program& P;
+  vh::SplitMix& rng;
+  int newTask(int level) { P.tasks.emplace_back(); P.tasks.back().level = level; return (int)P.tasks.size() - 1; }
+  int newSet(int kind, int mult) { P.sets.push_back({kind, mult}); return (int)P.sets.size() - 1; }
+
+  // a block "children into an own set, then wait"; returns the actions in order (spawns …, wait)
+  void ownSet(int t, int depth, int level, std::vector<PAct>& pre, std::vector<PAct>& post) {
+    int kind = (int)rng.below(3);
+    if (kind == S_CTS_HEAVY) P.heavy++;
+    int mult = rng.below(4) == 0 ? 1 : 4;   // small multiplier: the task-set inline paths
+    if (mult == 1) P.inl++;
+    int S = newSet(kind, mult);
+    int n = 1 + (int)rng.below(3);
+    std::vector<int> kids;
+    for (int i = 0; i < n; ++i) {
+      int c = newTask(level);
+      kids.push_back(c);
+    }
+    if (rng.below(3) == 0) {
+      PAct a; a.k = K_BULK; a.set = S; a.kids = kids; a.mode = (int)rng.below(2);
+      pre.push_back(a);
+      P.bulk++;
+    } else {
+      for (int c : kids) {
+        PAct a; a.k = K_SPAWN; a.set = S; a.kids = {c}; a.mode = (int)rng.below(3);
+        pre.push_back(a);
+      }
+    }
+    PAct w; w.k = K_WAIT; w.set = S; w.n = rng.below(4) == 0 ? 1 + (int)rng.below(2) : 0;
+    post.push_back(w);
+    for (int c : kids) body(c, depth - 1, level);
+  }
+
+  void body(int t, int depth, int level) {
+    if (depth <= 0) return;
+    int blocks = (int)rng.below(3);
+    for (int b = 0; b < blocks; ++b) {
+      int k = (int)rng.below(8);
+      std::vector<PAct> pre, post;
+      if (k <= 2) {
+        ownSet(t, depth, level, pre, post);
+        if (rng.below(4) == 0) {   // a second set, live at the same time, waited first
+          std::vector<PAct> pre2, post2;
+          ownSet(t, depth, level, pre2, post2);
+          pre.insert(pre.end(), pre2.begin(), pre2.end());
+          post.insert(post.begin(), post2.begin(), post2.end());
+        }
+      } else if (k == 3) {
+        PAct a; a.k = K_PFOR; a.set = newSet(S_PFOR, 4); a.n = 1 + (int)rng.below(5);
+        pre.push_back(a);
+        P.pfor++;
+      } else if (k == 4 || k == 5) {
+        int S = newSet(S_FUT, 0);
+        int c = newTask(level);
+        PAct a; a.k = K_FUT; a.set = S; a.kids = {c}; a.mode = (int)rng.below(2);
+        pre.push_back(a);
+        if (rng.below(2)) ownSet(t, depth, level, pre, post);   // other work between launch and wait
+        PAct w; w.k = K_FWAIT; w.set = S;
+        post.push_back(w);
+        P.fut++;
+        body(c, depth - 1, level);
+      } else if (k == 6 && P.foreign && level > 0) {
+        PAct a; a.k = K_FOREIGN; a.set = P.shared[rng.below((uint64_t)level)];
+        pre.push_back(a);
+        P.foreignWaits++;
+      }
+      auto& sc = P.tasks[t].script;
+      sc.insert(sc.end(), pre.begin(), pre.end());
+      sc.insert(sc.end(), post.begin(), post.end());
+    }
+  }
+
+  void root(int nsets) {
+    int r = newTask(-1);
+    for (int s = 0; s < nsets; ++s) {
+      int kind = rng.below(2) ? S_CTS_HEAVY : S_CTS_LIGHT;
+      if (kind == S_CTS_HEAVY) P.heavy++;
+      P.shared.push_back(newSet(kind, 4));
+    }
+    std::vector<std::vector<int>> kids(nsets);
+    for (int s = 0; s < nsets; ++s) {
+      int m = 1 + (int)rng.below(3);
+      for (int i = 0; i < m; ++i) {
+        int c = newTask(s);
+        kids[s].push_back(c);
+        PAct a; a.k = K_SPAWN; a.set = P.shared[s]; a.kids = {c}; a.mode = (int)rng.below(3);
+        P.tasks[r].script.push_back(a);
+      }
+      PAct seal; seal.k = K_SEAL; seal.set = s;
+      P.tasks[r].script.push_back(seal);
+    }
+    std::vector<int> order;
+    for (int s = 0; s < nsets; ++s) order.push_back(s);
+    for (int s = nsets - 1; s > 0; --s) std::swap(order[s], order[rng.below((uint64_t)s + 1)]);
+    for (int s : order) {
+      PAct w; w.k = K_WAIT; w.set = P.shared[s];
+      P.tasks[r].script.push_back(w);
+    }
+    for (int s = 0; s < nsets; ++s)
+      for (int c : kids[s]) body(c, 2, s);
+  }
+};
+
+struct SetObj {
+  std::unique_ptr<dispenso::TaskSet> ts;
+  std::unique_ptr<dispenso::ConcurrentTaskSet> cts;
+};
+
+struct Run {
+  Program* P = nullptr;
+  dispenso::ThreadPool* pool = nullptr;
+  std::vector<dispenso::ConcurrentTaskSet*> sharedObj;   // by shared index
+  std::vector<int> sealed;
+  std::map<const void*, int> pforSets;   // TaskSetBase* of a running parallel_for -> its set id
+  long scn = 0;
+};
+Run* g = nullptr;
+
+thread_local long tlWhoScn = -1;
+
+// one trace note, atomic with the operation it reports; the first note of a thread in a scenario is
+// preceded by "who <ring index>" (-1: not a pool thread)
+template <typename... A>
+void ev(const char* fmt, A... a) {
+  dsched::noPreempt(true);
+  if (tlWhoScn != g->scn) {
+    tlWhoScn = g->scn;
+    dsched::note("who %d", (int)dispenso::detail::PerPoolPerThreadInfo::ringIndex(g->pool));
+  }
+  dsched::note(fmt, a...);
+  dsched::noPreempt(false);
+}
 
 void counted() { dsched::ghostAdd(10, 1); }
 
-struct Task {
-  int level;        // index of the shared set this task belongs to (-1: child of a local set)
-  int depth;
-  uint64_t seed;
-  void operator()() const {
-    counted();
-    vh::SplitMix rng(seed);
-    int k = (int)rng.below(6);
-    if (depth <= 0) return;
-    if (k == 0 || k == 1) {
-      // own child set (heavy or light ConcurrentTaskSet, or TaskSet), children may nest further
-      int n = 1 + (int)rng.below(3);
-      if (rng.below(2)) {
-        dispenso::ConcurrentTaskSet cs(*g->pool, rng.below(2) ? dispenso::TaskCost::kHeavy : dispenso::TaskCost::kLightweight);
-        for (int i = 0; i < n; ++i) cs.schedule(Task{-1, depth - 1, rng.next()}, rng.below(3) == 0);
-        cs.wait();
-      } else {
-        dispenso::TaskSet ts(*g->pool);
-        if (rng.below(2)) ts.scheduleBulk((size_t)n, [&](size_t) { return Task{-1, depth - 1, rng.next()}; });
-        else for (int i = 0; i < n; ++i) ts.schedule(Task{-1, depth - 1, rng.next()});
-        ts.wait();
-      }
-    } else if (k == 2 && level > 0 && g->foreign) {
-      // wait on an earlier shared set whose scheduling has finished (legal: nobody schedules to it any more)
-      int j = (int)rng.below((uint64_t)level);
-      if (g->sealed[j]) g->shared[j]->wait();
-    } else if (k == 3) {
-      dispenso::TaskSet ts(*g->pool);
-      dispenso::parallel_for(ts, 0, 1 + (int)rng.below(4), [](int) { counted(); });
-    }
+void runTask(int id);
+struct Body {
+  int id;
+  void operator()() const { runTask(id); }
+};
+
+struct Frame {
+  std::map<int, SetObj> sets;
+  std::map<int, dispenso::Future<void>> futs;
+  SetObj& get(int S) {
+    auto it = sets.find(S);
+    if (it != sets.end()) return it->second;
+    SetObj& o = sets[S];
+    const PSet& d = g->P->sets[S];
+    if (d.kind == S_TS) o.ts.reset(new dispenso::TaskSet(*g->pool, (ssize_t)d.mult));
+    else o.cts.reset(new dispenso::ConcurrentTaskSet(
+        *g->pool, d.kind == S_CTS_HEAVY ? dispenso::TaskCost::kHeavy : dispenso::TaskCost::kLightweight, (ssize_t)d.mult));
+    return o;
   }
 };
 
+void waitOn(SetObj& o, int S, int tries) {
+  ev("call wait %d 1", S);
+  if (tries == 0) {
+    if (o.ts) o.ts->wait(); else o.cts->wait();
+  } else {
+    for (;;) {
+      bool done = o.ts ? o.ts->tryWait((size_t)tries) : o.cts->tryWait((size_t)tries);
+      if (done) break;
+      std::this_thread::yield();
+    }
+  }
+  ev("ret wait %d", S);
+}
+
+void exec(const PAct& a, Frame& fr, int self) {
+  switch (a.k) {
+    case K_SPAWN: {
+      SetObj& o = fr.get(a.set);
+      int c = a.kids[0];
+      ev("call spawn %d %d", c, a.set);
+      if (o.ts) {
+        if (a.mode == 1) o.ts->schedule(Body{c}, dispenso::ForceQueuingTag());
+        else o.ts->schedule(Body{c});
+      } else {
+        if (a.mode == 1) o.cts->schedule(Body{c}, dispenso::ForceQueuingTag());
+        else o.cts->schedule(Body{c}, a.mode == 2);
+      }
+      ev("ret spawn");
+      break;
+    }
+    case K_BULK: {
+      SetObj& o = fr.get(a.set);
+      ev("call bulk %d", a.set);
+      auto gen = [&a](size_t i) {
+        ev("gen %d", a.kids[i]);
+        return Body{a.kids[i]};
+      };
+      if (o.ts) {
+        if (a.mode == 1) o.ts->scheduleBulk(a.kids.size(), gen, dispenso::ForceQueuingTag());
+        else o.ts->scheduleBulk(a.kids.size(), gen);
+      } else {
+        if (a.mode == 1) o.cts->scheduleBulk(a.kids.size(), gen, dispenso::ForceQueuingTag());
+        else o.cts->scheduleBulk(a.kids.size(), gen);
+      }
+      ev("ret bulk");
+      break;
+    }
+    case K_WAIT:
+      waitOn(fr.get(a.set), a.set, a.n);
+      break;
+    case K_PFOR: {
+      ev("call pfor %d", a.set);
+      {
+        dispenso::TaskSet ts(*g->pool);
+        const void* key = static_cast<const void*>(static_cast<dispenso::TaskSetBase*>(&ts));
+        g->pforSets[key] = a.set;
+        dispenso::parallel_for(ts, 0, a.n, [](int) { counted(); });
+        g->pforSets.erase(key);
+      }
+      ev("ret pfor %d", a.set);
+      break;
+    }
+    case K_FUT: {
+      int c = a.kids[0];
+      ev("call spawn %d %d", c, a.set);
+      fr.futs.emplace(a.set, dispenso::async(*g->pool, a.mode ? std::launch::async : std::launch::deferred, Body{c}));
+      ev("ret spawn");
+      break;
+    }
+    case K_FWAIT: {
+      ev("call wait %d 0", a.set);
+      fr.futs.at(a.set).wait();
+      ev("ret wait %d", a.set);
+      break;
+    }
+    case K_FOREIGN: {
+      // legal: main has finished scheduling to that set (nobody schedules to it any more)
+      int idx = -1;
+      for (size_t i = 0; i < g->P->shared.size(); ++i) if (g->P->shared[i] == a.set) idx = (int)i;
+      if (idx >= 0 && g->sealed[idx]) {
+        ev("call wait %d 1", a.set);
+        g->sharedObj[idx]->wait();
+        ev("ret wait %d", a.set);
+      }
+      break;
+    }
+    case K_SEAL:
+      g->sealed[a.set] = 1;
+      break;
+  }
+  (void)self;
+}
+
+void runTask(int id) {
+  ev("begin %d", id);
+  counted();
+  {
+    Frame fr;
+    const auto& sc = g->P->tasks[id].script;
+    if (id == 0) {
+      // the root publishes its shared sets before scheduling into them
+      for (size_t i = 0; i < g->P->shared.size(); ++i) g->sharedObj[i] = fr.get(g->P->shared[i]).cts.get();
+    }
+    for (const auto& a : sc) exec(a, fr, id);
+  }
+  ev("end %d", id);
+}
+
+bool eq(const char* a, const char* b) { return std::strcmp(a, b) == 0; }
+
 }  // namespace
+
+extern "C" void dispenso_verif_hook(const char* what, const void* obj, long a, long b) {
+  if (dsched::tid() < 0 || !g || !g->pool) return;
+  if (eq(what, "pool.push.central")) ev("h %s %ld", what, a);
+  else if (eq(what, "pool.push.ring") || eq(what, "pool.push.steal")) ev("h %s %ld %ld", what, a, b);
+  else if (eq(what, "pool.take.central")) ev("h %s %ld", what, a);
+  else if (eq(what, "pool.take.ring") || eq(what, "pool.take.steal")) ev("h %s %ld %ld", what, a, b);
+  else if (eq(what, "pool.inline") || eq(what, "pool.inline0") || eq(what, "ts.inline")) ev("h %s", what);
+  else if (eq(what, "ts.dec")) {
+    // the chunks of a parallel_for have no identity of their own: report the loop they belong to (-1: a task body)
+    auto it = g->pforSets.find(obj);
+    ev("h %s %d", what, it == g->pforSets.end() ? -1 : it->second);
+  }
+}
 
 int main(int argc, char** argv) {
   uint64_t seed = vh::argInt(argc, argv, 1, 1);
   long long N = vh::argInt(argc, argv, 2, 100);
   long long start = vh::argInt(argc, argv, 3, 0);
-  dsh::installStuckHandler();
+  // a stuck run prints the PFAIL record and the history up to the point of detection (replayed through the
+  // model by the check, which also asks the model whether its state is stuck and by which mechanism)
+  dsched::setStuckHandler([](const dsched::RunInfo& i) {
+    auto& c = dsh::stuckCtx();
+    std::string rep = i.report;
+    for (auto& ch : rep) if (ch == '\n') ch = ';';
+    std::printf("PFAIL %s | %s %s after %ld steps: %s\n", c.signature.c_str(),
+                i.outcome == dsched::DEADLOCK ? "deadlock" : "livelock", c.detail.c_str(), i.steps, rep.c_str());
+    std::printf("STUCK-BEGIN %s\n", c.proto.c_str());
+    for (const auto& e : dsched::trace()) {
+      if (e.kind == dsched::K_THREAD_START || e.kind == dsched::K_THREAD_END || e.kind == dsched::K_FENCE) continue;
+      std::printf("T %s\n", dsched::fmt(e).c_str());
+    }
+    std::printf("STUCK-END %s\n", c.detail.c_str());
+  });
   long long cases = 0;
+  long maxSteps = 0;
   for (long long it = start; it < N; ++it) {
     vh::SplitMix rng(seed * 1000003ULL + (uint64_t)it);
     std::printf("SCN %lld\n", it);
@@ -89,56 +366,76 @@ int main(int argc, char** argv) {
     o.seed = seed * 15485863ULL + it;
     o.strategy = (it % 3 == 2) ? dsched::PCT : dsched::RANDOM;
     o.stickiness = 25 + (int)rng.below(70);
-    int n = (int)rng.below(4);
-    int sets = 1 + (int)rng.below(3);
+    // completed runs need < 15 000 steps; 50 ns of virtual time pass per step, the workers' idle-sleep
+    // backstop is set to 2 ms below (40 000 steps), so a parked worker wakes several times before a run is
+    // declared stuck: wake-up latency (C07) cannot make a run look stuck here
+    o.fairAfter = 100000;
+    o.livelockAfter = 400000;
+    int n = (int)rng.below(5);
+    int nsets = 1 + (int)rng.below(3);
     bool parkFirst = rng.below(2) == 0;
     bool foreign = rng.below(3) == 0;
-    std::string desc = "nested pool=" + std::to_string(n) + " sets=" + std::to_string(sets) + " park=" + std::to_string(parkFirst) +
-        " foreign_waits=" + std::to_string(foreign) +
-        " seed=" + std::to_string(o.seed);
+    Program P;
+    P.foreign = foreign;
+    {
+      Gen gen{P, rng};
+      gen.root(nsets);
+    }
+    std::string desc = "nested pool=" + std::to_string(n) + " sets=" + std::to_string(nsets) + " park=" + std::to_string(parkFirst) +
+        " foreign_waits=" + std::to_string(foreign) + " tasks=" + std::to_string(P.tasks.size()) +
+        " heavy=" + std::to_string(P.heavy) + " bulk=" + std::to_string(P.bulk) + " fut=" + std::to_string(P.fut) +
+        " pfor=" + std::to_string(P.pfor) + " seed=" + std::to_string(o.seed);
     auto& c = dsh::stuckCtx();
     c.signature = foreign ? "task waiting on a task set scheduled by another thread never returns (helping wait buried or starved the awaited task)"
                           : "fork-join program of nested waits never terminates";
     c.detail = desc;
+    char hdr[64];
+    std::snprintf(hdr, sizeof hdr, "nested %d %d", n, foreign ? 0 : 1);
+    c.proto = hdr;
     dsched::ghostAdd(10, -dsched::ghostGet(10));
-    Prog prog;
-    prog.foreign = foreign;
-    g = &prog;
+    Run run;
+    run.P = &P;
+    run.scn = it;
+    run.sharedObj.assign((size_t)nsets, nullptr);
+    run.sealed.assign((size_t)nsets, 0);
+    g = &run;
     dsched::clearNames();
-    dsched::run(o, [&] {
-      dispenso::ThreadPool pool((size_t)n);
-      prog.pool = &pool;
-      if (parkFirst && n > 0) {
-        // let the workers park so that placed scheduling uses the proactive-wake / steal-ring path
-        for (int i = 0; i < 200; ++i) {
+    auto info = dsched::run(o, [&] {
+      {
+        dispenso::ThreadPool pool((size_t)n);
+        run.pool = &pool;
+        pool.sleepLengthUs_.store(2000, std::memory_order_release);
+        if (n > 0) {
           auto* ws = pool.wakeState_.load(std::memory_order_relaxed);
-          if (ws && ws->totalSleeping() == n) break;
-          std::this_thread::sleep_for(std::chrono::microseconds(100));
+          dsched::nameRegion(&ws->groupStates_[0].sleepMask, sizeof(uint64_t), "sleep0");
         }
+        if (parkFirst && n > 0) {
+          // let the workers park so that placed scheduling uses the proactive-wake / steal-ring path
+          for (int i = 0; i < 200; ++i) {
+            auto* ws = pool.wakeState_.load(std::memory_order_relaxed);
+            if (ws && ws->totalSleeping() == n) break;
+            std::this_thread::sleep_for(std::chrono::microseconds(100));
+          }
+        }
+        runTask(0);
+        ev("call pooldtor");
       }
-      std::vector<std::unique_ptr<dispenso::ConcurrentTaskSet>> owned;
-      for (int s = 0; s < sets; ++s) {
-        owned.emplace_back(new dispenso::ConcurrentTaskSet(
-            pool, rng.below(2) ? dispenso::TaskCost::kHeavy : dispenso::TaskCost::kLightweight));
-        prog.shared.push_back(owned.back().get());
-        prog.sealed.push_back(0);
-      }
-      for (int s = 0; s < sets; ++s) {
-        int m = 1 + (int)rng.below(3);
-        for (int i = 0; i < m; ++i) prog.shared[s]->schedule(Task{s, 2, rng.next()}, rng.below(3) == 0);
-        prog.sealed[s] = 1;
-      }
-      // main waits in a random order
-      std::vector<int> order;
-      for (int s = 0; s < sets; ++s) order.push_back(s);
-      for (int s = sets - 1; s > 0; --s) std::swap(order[s], order[rng.below((uint64_t)s + 1)]);
-      for (int s : order) prog.shared[s]->wait();
-      owned.clear();
+      run.pool = nullptr;
+      dsched::note("ret pooldtor");
     });
     ++cases;
-    std::printf("NT n%d.s%d.p%d.f%d.b%ld\n", n, sets, (int)parkFirst, (int)foreign, dsched::ghostGet(10) > 12 ? 12 : dsched::ghostGet(10));
+    if (info.steps > maxSteps) maxSteps = info.steps;
+    long bodies = dsched::ghostGet(10);
+    long expect = (long)P.tasks.size();
+    for (const auto& t : P.tasks) for (const auto& a : t.script) if (a.k == K_PFOR) expect += a.n;
+    if (bodies != expect)
+      std::printf("PFAIL task bodies of a nested-wait program did not run exactly once | %s ran=%ld expected=%ld\n", desc.c_str(), bodies, expect);
+    dsh::emitTrace(hdr, desc);
+    std::printf("NT n%d.f%d.h%d.b%d.u%d.p%d.i%d.t%zu\n", n, (int)foreign, P.heavy > 0, P.bulk > 0, P.fut > 0, P.pfor > 0, P.inl > 0,
+                P.tasks.size() > 12 ? (size_t)12 : P.tasks.size());
   }
   std::printf("STAT cases %lld\n", cases);
+  std::printf("STAT max_steps %ld\n", maxSteps);
   std::fflush(stdout);
   _exit(0);
 }
